@@ -145,6 +145,16 @@ func determinismMem(r *Run) {
 			r.Probe("inputs-beyond-the-slice-limit")
 		}
 	}
+	if !par1Set && len(w.Files) >= 3 && t.Bool(1, 30, "empty-input-file") {
+		// a zero-length file among the inputs (not the last ones): whatever
+		// Create does about it - refuse, or leave it out - it must do the
+		// same for every order of the list
+		k := t.Draw(len(w.Files)-2, "which-empty")
+		w.Files[k].Data = []byte{}
+		base.Put(w.Path(k), []byte{})
+		mayFail = true
+		r.Probe("empty-input-file")
+	}
 	if !par1Set && t.Bool(1, 40, "many-input-files") {
 		// 65-200 tiny input files, the first one slow to read (a straggler
 		// among fast reads matters to code that reads ahead or in parallel)
